@@ -2,7 +2,6 @@ package xpath
 
 import (
 	"math"
-	"strconv"
 )
 
 // The XPath number operator function list.
@@ -92,7 +91,7 @@ func cmpNumericNumeric(t iterator, op string, m, n interface{}) bool {
 func cmpNumericString(t iterator, op string, m, n interface{}) bool {
 	a := m.(float64)
 	b := n.(string)
-	num, err := strconv.ParseFloat(b, 64)
+	num, err := parseNumber(b)
 	if err != nil {
 		num = math.NaN()
 	}
@@ -108,7 +107,7 @@ func cmpNumericNodeSet(t iterator, op string, m, n interface{}) bool {
 		if node == nil {
 			break
 		}
-		num, err := strconv.ParseFloat(node.Value(), 64)
+		num, err := parseNumber(node.Value())
 		if err != nil {
 			num = math.NaN()
 		}
@@ -127,7 +126,7 @@ func cmpNodeSetNumeric(t iterator, op string, m, n interface{}) bool {
 		if node == nil {
 			break
 		}
-		num, err := strconv.ParseFloat(node.Value(), 64)
+		num, err := parseNumber(node.Value())
 		if err != nil {
 			num = math.NaN()
 		}
@@ -183,7 +182,7 @@ func cmpNodeSetNodeSet(t iterator, op string, m, n interface{}) bool {
 func cmpStringNumeric(t iterator, op string, m, n interface{}) bool {
 	a := m.(string)
 	b := n.(float64)
-	num, err := strconv.ParseFloat(a, 64)
+	num, err := parseNumber(a)
 	if err != nil {
 		num = math.NaN()
 	}
